@@ -33,6 +33,10 @@ CHECKS = {
     "C18": {"level": "exploration", "steps": [step("./c18_exec/", shards={"thorough": 8}, timeout={"quick": 600, "thorough": 3600})],
             "technique": PBT + "; model-based multi-cycle histories", "note": TREE_NOTE + " The non-preserving endpoint is modelled as a scan that reports no executable bits and a filesystem that drops them.",
             "text": "Every bounded (ancestor, preserving, non-preserving) triple and random 3-8 cycle edit histories are run through propagate -> reconcile -> ideal apply in both two-way modes and role assignments; the preserving side's bit must be unchanged wherever a file exists on both sides before and after and content was not edited on both sides; every bit set by propagation must be justified by matching content."},
+    "C12": {"level": "exploration", "steps": [step("./c12_scan/", shards={"thorough": 8}, timeout={"quick": 600, "thorough": 3600})],
+            "technique": "property-based testing (rapid) on a real filesystem; differential against an independent lstat/readlink/sha walk",
+            "note": "Trusted: kit/disk's observer and expectation model; runs as root on ext4 (executability-preserving, no Unicode decomposition), so unreadable content is only reachable through the uid-switched variant; ignore decisions are scripted (pattern semantics are C14/C15).",
+            "text": "Random real directory trees (files up to 200 kB, all mode bits, portable and non-portable links, FIFOs, non-UTF-8 names, temporary-prefixed names, file and missing roots) are scanned under every symlink and permissions mode and both hashers with a scripted ignore set; snapshot content, the four counters and the digest cache must equal what an independent walk of the same tree computes."},
     "C06": {"level": "exploration", "steps": RECONCILE(), "technique": PBT, "note": TREE_NOTE,
             "text": "Same enumeration: no two actions on equal or nested paths, every action sits at a first disagreement found by an independent walker, conflicts have changes on both sides within their root."},
 }
